@@ -44,6 +44,49 @@ def present(vals, kind):
     return A
 
 
+ALIASES = ["reversed", "windows", "interleaved", "same"]
+
+
+def alias_values(rng, X, Y, alias):
+    """Values (X, Y, extra) that the aliasing presentation `alias` can carry; X, Y are n x p float arrays.
+    reversed: y = X[:, ::-1] (an exact rotation of X: the reversal permutation); windows: two overlapping column
+    windows of one n x (p + k) buffer; interleaved: even / odd columns of one buffer (no byte shared); same: y is X."""
+    n, p = X.shape
+    if alias == "reversed":
+        return X, X[:, ::-1].copy(), None
+    if alias == "same":
+        return X, X.copy(), None
+    if alias == "windows":
+        k = rng.randint(1, p - 1)
+        buf = np.concatenate([X, Y[:, p - k:]], axis=1)
+        return buf[:, :p].copy(), buf[:, k:k + p].copy(), k
+    return X, Y, None
+
+
+def present_pair(Xv, Yv, alias, k=None):
+    """X and y as float64 VIEWS of one buffer carrying exactly the given values."""
+    Xv, Yv = np.array(Xv, dtype=float), np.array(Yv, dtype=float)
+    n, p = Xv.shape
+    if alias == "reversed":
+        buf = Xv.copy()
+        X, y = buf, buf[:, ::-1]
+    elif alias == "same":
+        buf = Xv.copy()
+        X, y = buf, buf
+    elif alias == "windows":
+        buf = np.concatenate([Xv, Yv[:, p - k:]], axis=1)
+        X, y = buf[:, :p], buf[:, k:k + p]
+    elif alias == "interleaved":
+        buf = np.empty((n, 2 * p))
+        buf[:, ::2], buf[:, 1::2] = Xv, Yv
+        X, y = buf[:, ::2], buf[:, 1::2]
+    else:
+        return Xv, Yv
+    if not (np.array_equal(X, Xv) and np.array_equal(y, Yv)):
+        raise AssertionError("aliasing presentation does not carry the values of the case")
+    return X, y
+
+
 def present_flag(b, kind):
     return {"bool": bool(b), "int": int(bool(b)), "npbool": np.bool_(bool(b))}[kind or "bool"]
 
@@ -87,7 +130,16 @@ def _dataset(rng, p, t, nmax, n=None):
         Y = (np.pad(X, [(0, 0), (0, q - p)]) @ Q)[:, :t]
         if fam == "rotation_noise":
             Y = Y + 1e-3 * _randn(rng, n, t)
+    alias, ak = None, None
+    if p == t and p >= 2 and xkind == "float64" and rng.random() < 0.3:
+        alias = rng.choice(ALIASES)
+        X, Y, ak = alias_values(rng, X, Y, alias)
+        if alias in ("reversed", "same"):
+            fam, Q = "rotation", (np.eye(p)[:, ::-1] if alias == "reversed" else np.eye(p))
+        elif alias == "windows":
+            fam = "noise"
     d = dict(family=fam, X=X.tolist(), Y=Y.tolist(), Q=Q.tolist(), y1d=False, bad=None, xkind=xkind,
+             alias=alias, alias_k=ak,
              Xnew=_randn(rng, 3, p).tolist())
     if t == 1 and rng.random() < 0.5:
         d["y1d"] = True
@@ -122,6 +174,7 @@ def gen_history(rng, quick):
             if bad == "y1d_multi":               # a 1-D target: accepted by projector mode, IndexError in padded mode
                 d["Y"] = [[r[0]] for r in d["Y"]]
                 d["y1d"] = True
+                d["alias"] = None
                 d["family"] = "noise"
             else:
                 d["bad"] = bad
@@ -169,6 +222,8 @@ def gen_history(rng, quick):
 def _xy(d):
     X = np.array(d["X"], dtype=float)
     Y = np.array(d["Y"], dtype=float)
+    if d["bad"] is None and d.get("alias"):
+        return present_pair(X, Y, d["alias"], d.get("alias_k"))
     if d["bad"] == "x1d":
         X = X[:, 0]
     elif d["bad"] is None and d.get("xkind", "float64") != "float64":
@@ -355,7 +410,7 @@ def step_case(hist, k, cl):
     a = hist["ops"][k]
     d = hist["data"][a["d"]]
     b, hy, _ = cl[k][0][a["o"]]
-    return dict(family=d["family"], scale=1.0, xkind=d.get("xkind", "float64"), X=d["X"], Y=d["Y"], Q=d["Q"], projector=b, y1d=bool(d["y1d"]),
+    return dict(family=d["family"], scale=1.0, xkind=d.get("xkind", "float64"), alias=d.get("alias"), alias_k=d.get("alias_k"), X=d["X"], Y=d["Y"], Q=d["Q"], projector=b, y1d=bool(d["y1d"]),
                 estimator=("default" if hy is None else hy), Xnew=d["Xnew"],
                 comp_seed=(hist["comp_seed"] + 7919 * k) % (10 ** 9))
 
@@ -388,10 +443,17 @@ def frame_and_fresh(hist, obs, cl, make_estimator, gates):
             case = step_case(hist, k, cl)
             if gates.get(k, False):
                 X, y = _xy(hist["data"][a["d"]])
-                ref = OrthogonalRegression(use_orthogonal_projector=case["projector"],
-                                           linear_estimator=make_estimator(case["estimator"])).fit(X, y)
                 got = ob["objs"][own_o]["coef"]
                 compared += 1
+                try:
+                    ref = OrthogonalRegression(use_orthogonal_projector=case["projector"],
+                                               linear_estimator=make_estimator(case["estimator"])).fit(X, y)
+                except Exception as e:  # noqa
+                    bad.append((k, "call %d: the fit was accepted, but a new object constructed in the mode in force (%s) "
+                                   "rejects the same data with %s" % (k, "projector" if case["projector"] else "padded",
+                                                                      type(e).__name__)))
+                    prev_o, prev_e = ob["objs"], ob["ests"]
+                    continue
                 if got is None or got.shape != ref.coef_.shape or not np.allclose(got, ref.coef_, rtol=1e-8, atol=1e-9):
                     bad.append((k, "call %d: coef_ after the fit differs from a new object fitted once on the same data "
                                    "(max abs difference %s)" % (k, "n/a" if got is None or got.shape != ref.coef_.shape
